@@ -86,10 +86,15 @@ def final_of(cfg, seg):
 
 
 def reference(cfg, decisions):
-    """returns (yields: list of segment numbers or ['U'], terminal: 'ok'|'timeout'|'nack'|'invalid', requests: list of (kind, seg))"""
+    """returns (yields: list of segment numbers or ['U'], terminal: 'ok'|'timeout'|'nack'|'invalid', requests: list of (kind, seg)).
+    Answers per request attempt: 'a' at once, 'd' never, 'n'/'N' Nack at once, 'i' at once but refused by the validator,
+    'S' slow (1 ms before the lifetime ends: in time), 'L' late (0.5 ms after the lifetime ended: that attempt has failed, but the
+    Data is in the network and answers whatever matching request is pending when it arrives; at most one L, never next to an S)."""
     attempt = [0]
     reqs = []
     retry = cfg['retry']
+    clock = [0.0]
+    late = [None]           # (arrival instant, segment number carried or 'U')
 
     def request(kind, seg):
         fails = 0
@@ -109,6 +114,17 @@ def reference(cfg, decisions):
                 return 'nack'
             if d == 'i':
                 return 'invalid'
+            if d == 'S':
+                clock[0] += 99
+                return 'ok'
+            t = clock[0]
+            if late[0] is not None and t < late[0][0] < t + 100 and (kind == 'disc' or late[0][1] == seg):
+                clock[0] = late[0][0]
+                late[0] = None
+                return 'ok'
+            clock[0] = t + 100
+            if d == 'L':
+                late[0] = (t + 100.5, (cfg['k'] if cfg['n'] else 'U') if kind == 'disc' else seg)
             fails += 1
             if fails >= retry:
                 return 'timeout'
@@ -214,6 +230,10 @@ def execute(cfg, decisions):
             state['invalid'] = d == 'i'
             if cfg.get('lp'):
                 data = ts.tlv(0x64, ts.tlv(0x51, out.attempts.to_bytes(8, 'big')) + ts.tlv(0x50, data))
+            if d in ('S', 'L'):
+                # slow: one millisecond before the lifetime ends; late: half a millisecond after it ended
+                loop.call_later(0.099 if d == 'S' else 0.1005, face.deliver, data)
+                return
             face.deliver(data)
         face.on_send = on_send
 
@@ -317,7 +337,7 @@ def explore_cfg(cfg, dbound, on_run):
         run = execute(cfg, list(prefix))
         n += 1
         on_run(prefix, run)
-        used = sum(1 for d in prefix if d != 'a')
+        used = sum((2 if d in 'SL' else 1) for d in prefix if d != 'a')     # a slow / late answer counts as two deviations
         if used < dbound:
             specials = sum(1 for d in prefix if d in 'nNi')
             for i in range(len(prefix), run.attempts):
@@ -327,6 +347,9 @@ def explore_cfg(cfg, dbound, on_run):
                     stack.append(base + ('n',))
                     stack.append(base + ('N',))
                     stack.append(base + ('i',))
+                if used + 2 <= dbound and not any(d in 'SL' for d in prefix):
+                    stack.append(base + ('S',))
+                    stack.append(base + ('L',))
     return n
 
 
@@ -336,8 +359,8 @@ def plan(tier, seed):
     return {
         'units': units,
         'rule': 'execution = (object size, discovery answer, final-block variant, retry limit, answer pattern); answer patterns = all '
-                'assignments of {answer, drop, nack, invalid} to request attempts with at most D non-default answers and at most one '
-                'nack/invalid. Non-trivial = at least one non-default answer or a discovery answer other than segment 0.',
+                'assignments of {answer, drop, nack, invalid, slow answer (1 ms before the lifetime ends), late answer (0.5 ms after it ended, '
+                'still delivered)} to request attempts with at most D non-default answers, at most one nack/invalid and at most one slow/late. Non-trivial = at least one non-default answer or a discovery answer other than segment 0.',
         'bounds': {'configs': len(units), 'segments': '0 (unsegmented), 1..4', 'retry_limits': [1, 2, 3], 'final_variants': FINALS,
                    'deviation_bound': d},
         'assumptions': ['a request for a segment the object does not have is never answered',
